@@ -87,12 +87,15 @@ def run_case(case):
     for (t, v), (d, w) in zip(ge, ee):
         if (t.hour, t.minute) != (21, 0):
             raise Violation('equity point stamped %s, not the 21:00 close' % t)
-        if abs(v - w) > 1e-9 * max(abs(w), 1.0):
+        # (cash and holdings of a leveraged book are each up to leverage x the account: noise is relative to that)
+        if abs(v - w) > 1e-9 * max(abs(w), 1.0, scale * max(1.0, float(cfg.get('leverage') or 1.0))):
             raise Violation('equity on %s is %r, cash + holdings at the close is %r' % (d, v, w))
     ga = [(row['Date'], {k: v for k, v in row.items() if k != 'Date'}) for row in r.allocations]
     if ga != ref['allocations']:
         raise Violation('recorded target weights %s differ from %s' % (ga[:2], ref['allocations'][:2]))
     cls = [cfg['rebalance'], 'long_only' if cfg['long_only'] else 'long_short', 'assets_%d' % len(mk)]
+    if any(w_ <= 0 for _, w_ in ee):
+        cls.append('equity_not_positive_at_some_close')
     if any(case.get('gaps', {}).values()):
         cls.append('bars_with_empty_open')
     if case.get('file_order', 'sorted') != 'sorted':
@@ -130,9 +133,11 @@ def run_case(case):
 def cases(draw):
     sched = draw(sessgen.schedule())
     bah = sched['rebalance'] == 'buy_and_hold'
-    d0, d1, start, end = draw(sessgen.window(start_tods=((14, 30, 0),) if bah else ((0, 0, 0), (14, 30, 0))))
+    d0, d1, start, end = draw(sessgen.window(start_tods=((14, 30, 0), (14, 30, 0), (0, 0, 0), (21, 0, 0)) if bah
+                                             else ((0, 0, 0), (14, 30, 0))))
     names = draw(market.symbol_names(1, 5))
-    mk = draw(market.dense_markets(names, d0, (d1 - d0).days, subunit=True))
+    wild = draw(st.sampled_from([False] * 5 + [True]))      # a violent market: daily moves of up to +-25 %
+    mk = draw(market.dense_markets(names, d0, (d1 - d0).days, subunit=True, vol=8.0 if wild else 1.0))
     assets = ['EQ:' + n for n in names]
     siz = draw(sizing_())
     nuni = draw(st.integers(1, len(assets)))
@@ -144,6 +149,8 @@ def cases(draw):
            'adjust': draw(st.sampled_from([True, True, False]))}
     cfg.update(sched)
     cfg.update(siz)
+    if wild and not siz['long_only']:
+        cfg['leverage'] = draw(st.sampled_from([5.0, 8.0, 12.0]))      # ... on a heavily leveraged book: equity can turn negative
     if siz['long_only'] and len(assets) >= 2 and draw(st.sampled_from([False] * 5 + [True])):
         # weights summing to almost - not exactly - one, on a large account: they are still normalised
         n_ = len(assets)
